@@ -31,6 +31,9 @@ func init() {
 	}
 }
 
+// response codes that only the transaction's own checks (Run) produce, never the gate of RunTx
+var runOnlyCodes = map[uint32]bool{107: true, 111: true, 123: true, 201: true, 203: true, 204: true, 205: true, 206: true, 501: true, 502: true, 503: true, 504: true, 505: true, 506: true, 601: true, 602: true, 605: true, 607: true, 801: true, 802: true}
+
 var symRe = regexp.MustCompile("^[A-Z0-9]{3,10}$")
 
 func symOK(s string) bool {
@@ -671,7 +674,11 @@ func (g *lgen) dumpBalances(tracked []types.Address) ([]*big.Int, []*big.Int) {
 	return in, out
 }
 
-func priceVector(c types.Commission) []*big.Int {
+func priceVector(c types.Commission, rc, rb *big.Int) []*big.Int {
+	return append(priceVector0(c), Z(int64(c.Coin)), rc, rb)
+}
+
+func priceVector0(c types.Commission) []*big.Int {
 	return L(bi(c.PayloadByte), bi(c.Send), bi(c.MultisendBase), bi(c.MultisendDelta), bi(c.CreateTicker3), bi(c.CreateTicker4), bi(c.CreateTicker5),
 		bi(c.CreateTicker6), bi(c.CreateTicker7_10), bi(c.CreateToken), bi(c.RecreateToken), bi(c.MintToken), bi(c.BurnToken), bi(c.Lock),
 		bi(c.RedeemCheck), bi(c.CreateMultisig), bi(c.EditTickerOwner), bi(c.FailedTx))
@@ -692,6 +699,29 @@ func runLedger(pid string, seed uint64, n int, out, stats string) {
 		if r.Intn(4) == 0 {
 			spec.Balance = new(big.Int).Add(pip(2000), r.Big(20)) // poor accounts: ticker fees unaffordable
 		}
+		// a third of the histories: the price table is denominated in a custom coin (id 1) with a pool to the base coin
+		customPrice := r.Intn(3) == 0
+		prc, prb := Z(0), Z(0)
+		if customPrice {
+			prc = new(big.Int).Add(pip(int64(1000+r.Intn(100000))), r.Big(18))
+			prb = new(big.Int).Add(pip(int64(1000+r.Intn(100000))), r.Big(18))
+			if r.Intn(4) == 0 {
+				prb = new(big.Int).Add(r.Big(19), Z(100000)) // tiny base reserve: fees convert to (almost) nothing / cannot be priced
+			}
+			spec.Mutate = func(st *types.AppState) {
+				owner := st.Accounts[len(st.Accounts)-1].Address
+				extra := pip(5)
+				st.Coins = append(st.Coins, types.Coin{ID: 1, Name: "price", Symbol: types.StrToCoinSymbol("PRICECOIN"),
+					Volume: new(big.Int).Add(prc, extra).String(), MaxSupply: "1000000000000000000000000000000000", OwnerAddress: &owner, Mintable: true, Burnable: true})
+				st.Pools = append(st.Pools, types.Pool{Coin0: 0, Coin1: 1, Reserve0: prb.String(), Reserve1: prc.String(), ID: 1})
+				st.Accounts[len(st.Accounts)-1].Balance = append(st.Accounts[len(st.Accounts)-1].Balance, types.Balance{Coin: 1, Value: extra.String()})
+				st.Commission.Coin = 1
+				// prices in the custom coin: scaled so that fees are affordable
+				if r.Intn(2) == 0 {
+					st.Commission.FailedTx = "1"
+				}
+			}
+		}
 		nd := newNode(spec)
 		where := fmt.Sprintf("vharness %s -seed %d -n %d (history %d, seed %d)", strings.ToLower(pid), seed, n, i, s)
 		var poor []Acct
@@ -701,7 +731,11 @@ func runLedger(pid string, seed uint64, n int, out, stats string) {
 		g := &lgen{n: nd, r: r, poor: poor, paid: map[string]bool{}, users: nd.Accts[:nUsers], nonces: map[types.Address]uint64{}, owner: map[types.CoinSymbol]Acct{}, symOf: map[types.CoinID]types.CoinSymbol{}}
 		c.Begin(7)
 		com := nd.Genesis.Commission
-		c.Op(append(L(Z(0), symZ(types.GetBaseCoin()), Z(0), Z(InitialHeight)), priceVector(com)...), L(Z(0)))
+		c.Op(append(L(Z(0), symZ(types.GetBaseCoin()), Z(0), Z(InitialHeight)), priceVector(com, prc, prb)...), L(Z(0)))
+		if customPrice {
+			ownerA := nd.Accts[len(nd.Accts)-1].Addr
+			c.Op(L(Z(2), Z(1), symZ(types.StrToCoinSymbol("PRICECOIN")), Z(0), new(big.Int).Add(prc, pip(5)), ZS("1000000000000000000000000000000000"), Z(1), Z(1), Z(1), addrZ20(ownerA)), L(Z(0)))
+		}
 		for _, a := range nd.Accts {
 			c.Op(L(Z(1), addrZ20(a.Addr), Z(0), spec.Balance), L(Z(0)))
 		}
@@ -800,7 +834,10 @@ func runLedger(pid string, seed uint64, n int, out, stats string) {
 							continue
 						}
 						payerKey := fmt.Sprintf("%s/%d", cur.payer.String(), cur.gas)
-						fee := new(big.Int).Mul(Z(int64(cur.gp)), new(big.Int).Add(bi(com.FailedTx), new(big.Int).Mul(Z(int64(cur.plen)), bi(com.PayloadByte))))
+						fee := toBase(nd, com, new(big.Int).Mul(Z(int64(cur.gp)), new(big.Int).Add(bi(com.FailedTx), new(big.Int).Mul(Z(int64(cur.plen)), bi(com.PayloadByte)))))
+						if fee == nil {
+							fee = big.NewInt(0)
+						}
 						if k != payerKey || d.Sign() > 0 || new(big.Int).Neg(d).Cmp(fee) > 0 {
 							mon = append(mon, MonitorFailure{What: fmt.Sprintf("C03: rejected %s transaction (code %d) changed balance %s by %s (payer %s, failure fee %s)", cur.kind, tr.Code, k, d, payerKey, fee), Key: "c03-frame", Replay: where})
 						} else {
@@ -812,6 +849,21 @@ func runLedger(pid string, seed uint64, n int, out, stats string) {
 							if new(big.Int).Neg(d).Cmp(want) != 0 {
 								mon = append(mon, MonitorFailure{What: fmt.Sprintf("C03: rejected %s transaction (code %d) charged %s to %s; the failure fee capped at the payer's balance is %s (fee %s, balance %s)", cur.kind, tr.Code, new(big.Int).Neg(d), k, want, fee, preBal[k]), Key: "c03-fee-cap", Replay: where})
 							}
+						}
+					}
+				}
+				// C03: a rejection that can only come from the transaction's own checks (after the gate) charges the
+				// failure fee, capped at the payer's balance
+				if runOnlyCodes[tr.Code] && cur.gas == 0 {
+					pk := fmt.Sprintf("%s/%d", cur.payer.String(), cur.gas)
+					fee := toBase(nd, com, new(big.Int).Mul(Z(int64(cur.gp)), new(big.Int).Add(bi(com.FailedTx), new(big.Int).Mul(Z(int64(cur.plen)), bi(com.PayloadByte)))))
+					if fee != nil && fee.Sign() > 0 && preBal[pk] != nil && preBal[pk].Sign() > 0 {
+						want := new(big.Int).Set(fee)
+						if preBal[pk].Cmp(want) < 0 {
+							want = new(big.Int).Set(preBal[pk])
+						}
+						if got := new(big.Int).Sub(preBal[pk], postBal[pk]); got.Cmp(want) != 0 {
+							mon = append(mon, MonitorFailure{What: fmt.Sprintf("C03: %s transaction rejected with code %d: payer %s was charged %s, the failure fee capped at its balance is %s", cur.kind, tr.Code, pk, got, want), Key: "c03-fee-cap", Replay: where})
 						}
 					}
 				}
@@ -858,6 +910,9 @@ func runLedger(pid string, seed uint64, n int, out, stats string) {
 				// C27: accepted, base gas coin: the reward pool grows by gasPrice*(type price + bytes*byte price), less the ticker burn
 				if tr.Code == 0 && cur.gas == 0 {
 					want := c27Price(com, cur)
+					if want != nil {
+						want = toBase(nd, com, want)
+					}
 					got := new(big.Int).Sub(rp, preRpool)
 					if cur.kind == "createtoken" {
 						got.Add(got, bi(tr.Tags["tx.burned_for_symbol"]))
@@ -981,6 +1036,20 @@ func runLedger(pid string, seed uint64, n int, out, stats string) {
 		Rule: "seeded history of 6-35 blocks (0-5 transactions each) of the ten transaction types of Model/Ledger.v (send, multisend, create/recreate/mint/burn token, lock, redeem check, create multisig, edit coin owner) with single and multi signatures, stale/future nonces, wrong chain ids, unknown coins and gas coins, over-spends, invalid symbols/supplies, forged/foreign/expired/replayed checks, duplicate / non-owner / under-weight multisig signers, payload and service data up to the limits; each transaction is run in check mode on the in-flight state and then delivered on the real node; outputs compared with the model: code, payer balance, nonce, reward pool per transaction and all balances/nonces/coins per block; non-trivial = at least one accepted transaction; distinct = distinct case text",
 		Dist: dist, Samples: c.Samples, Monitor: myMon,
 		Extra: map[string]interface{}{"txs": txs, "accepted_txs": okTxs, "check_deliver_agreements": checkAgree, "failed_tx_fees_charged": failedCharged, "redeliveries_of_earlier_bytes": redeliveries, "codes": codes}})
+}
+
+// toBase converts an amount of the price coin into base coin with the real pool code (what the property
+// calls "converted through the pool"): nil when it cannot be converted.
+func toBase(nd *Node, com types.Commission, x *big.Int) *big.Int {
+	if com.Coin == 0 {
+		return x
+	}
+	if x.Sign() == 0 {
+		return big.NewInt(0)
+	}
+	sw := nd.App.CurrentState().Swap().GetSwapper(types.CoinID(com.Coin), 0)
+	v, _ := sw.CalculateBuyForSellWithOrders(x)
+	return v
 }
 
 // c27Price: gasPrice * (type price + bytes * byte price) from the price table, for the modelled types.
